@@ -13,7 +13,7 @@ pub fn prop() -> HistProp {
         max_ops: 40,
         max_prepop: 8,
         cases_quick: 2500,
-        cases_thorough: 40_000,
+        cases_thorough: 200_000,
         nontrivial: |s, _| s.wrong_typed_on_populated >= 1 && s.max_levels >= 2,
         rule: "histories vec(op,0..=40) in the UNTYPED profile (every call on every universe path incl. the root and wrong-typed targets; selectors resolved against the last observed snapshot, no model prediction) x backend stacks incl. pre-populated overlays; after every step: root is a directory, exists(p) => parent(p) is a directory, every existing universe path is reachable by recursive read_dir, walk_dir(root) = listing walk; non-trivial = >=1 wrong-typed call executed on a non-empty directory or on a file with siblings while >=2 tree levels are populated; distinct by case hash",
         floors: vec![("distinct_nontrivial", 30), ("cfg:mem", 5), ("cfg:phys", 5), ("cfg:altroot", 5), ("cfg:overlay", 5), ("wrong_typed_calls", 200)],
